@@ -11,6 +11,7 @@ mod driver;
 mod framework;
 mod registry;
 mod scen_agg;
+mod scen_bridge;
 mod scen_emf;
 mod scen_global;
 mod scen_queue;
